@@ -304,20 +304,20 @@ host("chess-movegen", _MG, "kani_verif_common", "harness/chess-movegen/common.rs
 host("chess-movegen", _MG, "kani_verif_deps", "harness/chess-movegen/deps.rs")
 host("chess-movegen", _MG, "kani_verif_c06", "harness/chess-movegen/c06.rs")
 SPEC_PROPS.update(["C01", "C02", "C03", "C05", "C06", "C07", "C10"])
-ob("C06.validate.sound", ["C06"], "chess-movegen", "kani_verif_c06::c06_validate_sound", kind="complete", flags="full", timeout=1800, mem_gb=8,
+ob("C06.validate.sound", ["C06"], "chess-movegen", "kani_verif_c06::c06_validate_sound", kind="complete", flags="full", timeout=1800, mem_gb=3,
    functions=["Board::validate", "Board::validate_en_passant", "Board::validate_castle_rights", "RawBoard::has_kings", "RawBoard::get"],
    contract="{raw is a placement, rights < 16} validate() {Ok => one king per side AND <= 16 per side AND side not to move not in check AND each right only with king and that rook at home AND e.p. marker only on an empty square behind an enemy pawn on its double-step rank}; full symbolic Board")
-ob("C06.validate.complete", ["C06"], "chess-movegen", "kani_verif_c06::c06_validate_complete", kind="complete", flags="full", timeout=1800, mem_gb=8,
+ob("C06.validate.complete", ["C06"], "chess-movegen", "kani_verif_c06::c06_validate_complete", kind="complete", flags="full", timeout=1800, mem_gb=3,
    functions=["Board::validate"], contract="playable(view(self)) => validate() == Ok (no over-rejection: every canonical FEN of a reachable position passes validation)")
-ob("C06.validate.errors", ["C06"], "chess-movegen", "kani_verif_c06::c06_validate_errors", kind="complete", flags="full", timeout=1800, mem_gb=8,
+ob("C06.validate.errors", ["C06"], "chess-movegen", "kani_verif_c06::c06_validate_errors", kind="complete", flags="full", timeout=1800, mem_gb=3,
    functions=["Board::validate"], contract="each error variant is returned only when its clause is violated")
 ob("C06.has_kings", ["C06"], "chess-movegen", "kani_verif_c06::c06_has_kings", kind="complete", flags="full", timeout=900, mem_gb=4,
    functions=["RawBoard::has_kings"], contract="has_kings() == exactly one king of each colour, all placements")
-ob("C06.build", ["C06", "C03"], "chess-movegen", "kani_verif_c06::c06_build", kind="complete", flags="full", timeout=1800, mem_gb=6, stubs=["Board::update_pin_info -> contract stub (C03.pin_info.*)"],
+ob("C06.build", ["C06", "C03"], "chess-movegen", "kani_verif_c06::c06_build", kind="complete", flags="full", timeout=1800, mem_gb=5, stubs=["Board::update_pin_info -> contract stub (C03.pin_info.*)"],
    functions=["BoardBuilder::build", "Board::validate"],
    contract="build() == Ok(b) only if validate() accepted the builder's board; b has the same position and hash; b.checkers/pinned == spec; Err(e) == validate()'s error")
-ob("C06.cover", "C06", "chess-movegen", "kani_verif_c06::c06_cover", kind="cover", flags="full", timeout=1800, mem_gb=8, contract="vacuity guard: accepted boards with all rights / e.p. for either colour / 16+16 pieces exist")
-ob("C06.negtwin", "C06", "chess-movegen", "kani_verif_c06::c06_negtwin", kind="negtwin", expect="refuted", flags="full", timeout=1800, mem_gb=8, contract="negated twin: must be refuted")
+ob("C06.cover", "C06", "chess-movegen", "kani_verif_c06::c06_cover", kind="cover", flags="full", timeout=1800, mem_gb=3, contract="vacuity guard: accepted boards with all rights / e.p. for either colour / 16+16 pieces exist")
+ob("C06.negtwin", "C06", "chess-movegen", "kani_verif_c06::c06_negtwin", kind="negtwin", expect="refuted", flags="full", timeout=1800, mem_gb=3, contract="negated twin: must be refuted")
 
 # =========================================================================== C10 move iterator
 host("chess-movegen", "chess-movegen/src/fen.rs", "kani_verif_fen", "harness/chess-movegen/fen.rs")
@@ -390,7 +390,7 @@ ob("C03.pin_info.body", ["C03", "C06", "C07"], "chess-movegen", "kani_verif_c06:
 ob("C03.pin_lemma", ["C03", "C06"], "chess-movegen", "kani_verif_c06::c03_pin_lemma", kind="complete", flags="full", timeout=1500, mem_gb=4,
    functions=["(spec only) is_checker / is_pinned vs union of body contributions"],
    contract="spec-only lemma: is_checker(q) <=> q is a leaper checker or a pinner with nothing between; is_pinned(q) <=> q is the single blocker of some pinner")
-ob("C03.pin_info.loop2", ["C03", "C06"], "chess-movegen", "kani_verif_c06::c03_pin_info_loop2", kind="bounded", bound="<= 2 enemy sliders aligned with the king (loop skeleton)", flags="full", timeout=2400, mem_gb=6, stubs=_LK5,
+ob("C03.pin_info.loop2", ["C03", "C06"], "chess-movegen", "kani_verif_c06::c03_pin_info_loop2", kind="bounded", bound="<= 2 enemy sliders aligned with the king (loop skeleton)", flags="full", timeout=2400, mem_gb=4, stubs=_LK5,
    functions=["Board::update_pin_info"], contract="real iterator, <= 2 pinners: checkers/pinned == from-scratch spec at every square")
 ob("C03.state", ["C03"], "chess-movegen", "iter::kani_verif_c10::c03_state", kind="complete", flags="full", timeout=1500, mem_gb=6, stubs=["Board::legals -> arbitrary well-formed MoveGen (contracts C01/C10)"],
    functions=["Board::state", "MoveGen::is_empty", "Board::in_check"],
@@ -417,7 +417,7 @@ for k, d in _kinds:
        contract="incremental check/pin sets, kind %s, foreach-loop body: re-scan ranges over exactly the successor's pinner set; for an ARBITRARY member: out.checkers = leaper checkers of the successor + {s} iff nothing between, out.pinned = the single blocker (with C03.pin_lemma: == from-scratch spec of the successor)" % d)
 ob("C02.cache.loop2", ["C03", "C02"], "chess-movegen", "kani_verif_c02::c02_cache_loop2", tier="thorough", kind="bounded", bound="successor has <= 2 sliders aligned with the enemy king (loop skeleton)", flags="full", timeout=10800, mem_gb=8, stubs=_LK5 + ["Board::xor -> contract stub (C04.xor)"], functions=_MK,
    contract="real iterator, every move kind: out.checkers/out.pinned == from-scratch spec of the successor at every square; successor position and hash delta as well")
-ob("C02.valid_preserved", ["C02", "C03"], "chess-movegen", "kani_verif_c02::c02_valid_preserved", kind="complete", flags="func", timeout=2400, mem_gb=6,
+ob("C02.valid_preserved", ["C02"], "chess-movegen", "kani_verif_c02::c02_valid_preserved", kind="complete", flags="func", timeout=2400, mem_gb=6,
    functions=["(spec only) valid(P) and legal(P, mv) => valid(apply(P, mv))"],
    contract="spec-only lemma for the induction over histories: a legal move from a valid position leads to a valid position (placement, king/piece counts, mover not left in check, rights consistent, e.p. marker consistent, no back-rank pawn)")
 ob("C02.rights_table", ["C02", "C07"], "chess-movegen", "kani_verif_c02::c02_rights_table", kind="complete", flags="full", timeout=600, mem_gb=2, functions=["CastleRights::remove_for_sq", "CastleRights::to_index", "CastleRights::contains", "CastleRights::with"],
@@ -462,7 +462,7 @@ for st, n in (("nocheck", 0), ("check", 1)):
        stubs=["chess_lookup::between", "chess_lookup::line", "chess_lookup::pawn_moves", "chess_lookup::rook_moves", "chess_lookup::bishop_moves", "BitBoard::pop -> one-shot abstraction (three pawn loops incl. en passant)"],
        functions=["<Pawn as PieceType>::legals::<%s>" % ("IN_CHECK" if n else "NO_CHECK"), "Pawn::pseudo_legals", "check_mask"],
        contract=_INV + " with %d checker(s), any mask, every e.p. file or none: for an ARBITRARY pawn picked by each of the three loops (unpinned, pinned, en-passant capturers) and EVERY destination d and promotion choice: generated exactly once iff legal and masked (en passant decided by make-move: both pawns leave, king tested); promotion flag iff the pawn stands on its seventh rank" % n)
-ob("C01.king_position", ["C01", "C06"], "chess-movegen", _PC + "c01_king_position", kind="complete", flags="full", timeout=2400, mem_gb=6, stubs=_LK5 + ["chess_lookup::king_moves"],
+ob("C01.king_position", ["C01", "C06"], "chess-movegen", _PC + "c01_king_position", kind="complete", flags="full", timeout=2400, mem_gb=5, stubs=_LK5 + ["chess_lookup::king_moves"],
    functions=["Board::is_legal_king_position"], contract="{one king each, <= 16 per side} is_legal_king_position(dest) == dest is not attacked by the opponent once the mover's king is lifted off the board; all boards x all 64 squares (real 16-fold slider loop)")
 for st in ("nocheck", "check"):
     ob("C01.king." + st, ["C01"], "chess-movegen", _PC + "c01_king_" + st, kind="complete", flags="func", timeout=2400, mem_gb=6, part=(0 if st == "nocheck" else 1), stubs=["chess_lookup::king_moves", "Board::is_legal_king_position -> contract stub (C01.king_position)"],
@@ -509,16 +509,16 @@ _GROUND = [("standard", "standard position"), ("kiwipete", "kiwipete, all rights
 _GROUND += [("r%02d" % i, "castling subset %d" % i) for i in (0, 1, 2, 3, 4, 5, 7, 8, 10, 11, 12, 13, 14)]
 _GROUND += [("bare_kings", "bare kings, rank 1 and rank 8 end with an empty run"), ("corners", "kings in the corners, empty run first / last")]
 for _n, _d in _GROUND:
-    ob("C05.ground." + _n, ["C05", "C06"] if _n in ("standard", "check", "ep_white") else ["C05"], "chess-movegen", _FN + "c05_ground_" + _n, kind="ground", flags="full", timeout=1500, mem_gb=4,
+    ob("C05.ground." + _n, ["C05", "C06"] if _n in ("standard", "check", "ep_white") else ["C05"], "chess-movegen", _FN + "c05_ground_" + _n, kind="ground", flags="full", timeout=1500, mem_gb=3,
        functions=["fen::parse_fen", "<Board as Display>::fmt", "<CastleRights as Debug>::fmt", "Board::validate", "Board::update_pin_info"],
        contract="ground round trip (%s): parse_fen(text) == Ok(b); Display(b) == text byte for byte; the spec writer applied to view(b) == text (b denotes exactly the described position); hash field == from-scratch piece hash; cached sets == spec; position playable" % _d)
 for _off, _what in ((17, "separator after the placement"), (18, "side to move"), (20, "castling field"), (22, "en-passant field"), (24, "half-move clock"), (26, "full-move number")):
-    ob("C06.window.%02d" % _off, ["C06"], "chess-movegen", _FN + "c06_w_%02d" % _off, kind="bounded", bound="one arbitrary byte at offset %d (%s) of the 27-byte text 'k7/8/8/8/8/8/8/K7 w - - 0 1'" % (_off, _what), flags="full", timeout=1500, mem_gb=5,
+    ob("C06.window.%02d" % _off, ["C06"], "chess-movegen", _FN + "c06_w_%02d" % _off, kind="bounded", bound="one arbitrary byte at offset %d (%s) of the 27-byte text 'k7/8/8/8/8/8/8/K7 w - - 0 1'" % (_off, _what), flags="full", timeout=1500, mem_gb=3,
        functions=["fen::parse_fen", "Board::validate"], contract="all 256 values of that byte: parse_fen returns (no panic / overflow / out-of-bounds); an accepted board passes validate()")
 for _n, _d in (("empty", "empty string"), ("one_rank", "'8'"), ("after_rank", "text ends after a complete rank (4 of 8)"), ("seven_ranks", "seven ranks"), ("mid_rank", "text ends inside the last rank"),
                ("no_turn", "no side to move"), ("no_rights", "no castling field"), ("no_ep", "no e.p. field"), ("no_clocks", "no clocks"), ("one_clock", "only one clock"),
                ("long_rank", "digit 9"), ("rank_overflow", "rank with 9 files"), ("bad_letter", "letter x"), ("trailing", "trailing space"), ("ep_rank", "e.p. square on the wrong rank for the side to move"), ("five_digits", "five-digit clock")):
-    ob("C06.reject." + _n, ["C06"], "chess-movegen", _FN + "c06_reject_" + _n, kind="ground", flags="full", timeout=1500, mem_gb=4, functions=["fen::parse_fen"],
+    ob("C06.reject." + _n, ["C06"], "chess-movegen", _FN + "c06_reject_" + _n, kind="ground", flags="full", timeout=1500, mem_gb=2, functions=["fen::parse_fen"],
        contract="ground totality case (%s): parse_fen returns an error, without panic / overflow / out-of-bounds" % _d)
 ob("C05.constructors", ["C05", "C04"], "chess-movegen", _FN + "c05_constructors", kind="ground", flags="full", timeout=1500, mem_gb=4, functions=["Board::standard", "Board::builder", "BoardBuilder::place", "BoardBuilder::castle_rights", "BoardBuilder::build", "fen::parse_fen"],
    contract="standard(), the builder fed with the standard placement, and parse_fen(standard FEN) are field-for-field identical (position, hash, cached sets)")
@@ -587,3 +587,15 @@ for _o in OBLIGATIONS:
         _o["part"] = (_C01_PART[_o["name"][4:]], 4)
     elif _o["name"].startswith("C01.") and "part" in _o and not _o["name"].startswith("C01.dispatch"):
         del _o["part"]
+
+# measured memory of the C01 obligations after the query-stub restructuring (GB), for job scheduling
+for _o in OBLIGATIONS:
+    n = _o["name"]
+    if not n.startswith("C01.") or _o.get("tier") == "thorough":
+        continue
+    if n.endswith(".body"):
+        _o["mem_gb"] = 6 if "pawn" in n else 5
+    elif n.endswith(".skipped") or n in ("C01.dispatch.lemma", "C01.check_mask", "C01.cover"):
+        _o["mem_gb"] = 3
+    elif n.startswith("C01.king.") or n == "C01.is_legal":
+        _o["mem_gb"] = 4
